@@ -149,13 +149,17 @@ pub fn c20(rep: &mut Report, n: usize, seed: u64) {
                 let mut got = vec![];
                 let mut want = vec![];
                 for ch in ops.chars() {
+                    let opt_tok = |o: Option<(usize, usize)>| match o {
+                        Some((a, b)) => format!("S{}-{}", a, b),
+                        None => "N".to_string(),
+                    };
                     let g = match ch {
                         'n' => step_tok(&s.next()),
                         'b' => step_tok(&s.next_back()),
-                        'm' => format!("{:?}", s.next_match()),
-                        'r' => format!("{:?}", s.next_reject()),
-                        'M' => format!("{:?}", s.next_match_back()),
-                        _ => format!("{:?}", s.next_reject_back()),
+                        'm' => opt_tok(s.next_match()),
+                        'r' => opt_tok(s.next_reject()),
+                        'M' => opt_tok(s.next_match_back()),
+                        _ => opt_tok(s.next_reject_back()),
                     };
                     let is_m = |st: &SearchStep| matches!(st, SearchStep::Match(..));
                     let pair = |st: &SearchStep| match st {
@@ -188,7 +192,7 @@ pub fn c20(rep: &mut Report, n: usize, seed: u64) {
                                     break;
                                 }
                             }
-                            format!("{:?}", out)
+                            opt_tok(out)
                         }
                         _ => {
                             let mut out = None;
@@ -199,7 +203,7 @@ pub fn c20(rep: &mut Report, n: usize, seed: u64) {
                                     break;
                                 }
                             }
-                            format!("{:?}", out)
+                            opt_tok(out)
                         }
                     };
                     got.push(g);
@@ -207,6 +211,11 @@ pub fn c20(rep: &mut Report, n: usize, seed: u64) {
                 }
                 done += 1;
                 rep.count("provided-method-interleaving");
+                // the Lean model of the provided methods (loops over next / next_back) answers the same sequence
+                rep.tie(
+                    format!("search2 {} {} {} {}", hay.len(), bounds.iter().map(|b| b.to_string()).collect::<Vec<_>>().join(","), ff.join(","), ops),
+                    got.join(" "),
+                );
                 if got != want {
                     rep.violation(
                         "impl-vs-spec:C20",
